@@ -332,6 +332,7 @@ def enumerate_histories(length):
 
 
 def run(ctx):
+    global POOL, OUTSIDE
     si, sn = ctx.shard or (0, 1)
     quick = ctx.tier == 'quick'
     L = 3 if quick else 4
@@ -389,6 +390,30 @@ def run(ctx):
         ctx.count('random_histories')
         if ctx.stop_early():
             break
+    # a second pool: path components that begin with characters of their parent's path, and realistic long names
+    saved_pool = (POOL, OUTSIDE)
+    POOL = ['/a', '/a/a', '/a/ab', '/a/a/a', '/org', '/org/go', '/org/go/Thing', '/org/example/Root/toolbar',
+            '/org/example/Root', '/a/b', '/a/b/ba/d']
+    OUTSIDE = ['/a/aa', '/org/g', '/o']
+    try:
+        for i in range((40 if quick else 800) // sn):
+            r = random.Random('%s/c16pool2/%s' % (ctx.seed, i * sn + si))
+            exported = {}
+            ops = []
+            for _ in range(r.randint(3, 9)):
+                op = r.choice(ops_from(exported))
+                ops.append(op)
+                if op[0] == 'export':
+                    exported[op[1]] = op[2]
+                else:
+                    del exported[op[1]]
+            run_history(ctx, ops, r.random() < 0.3, {'kind': 'hist', 'ops': [list(o) for o in ops], 'every': True,
+                                                     'pool': 2})
+            ctx.count('second_pool_histories')
+            if ctx.stop_early():
+                break
+    finally:
+        POOL, OUTSIDE = saved_pool
     ctx.sample({'history': [['export', '/a/b', 'A'], ['export', '/a/bc', 'AB'], ['unexport', '/a/b', 'A']],
                 'queries_after_each_step': POOL + OUTSIDE})
     ctx.require(ctx.counters.get('states_checked', 0) > 100, 'too few states checked')
@@ -396,5 +421,10 @@ def run(ctx):
 
 
 def replay(ctx, rp):
+    global POOL, OUTSIDE
     case = rp['case']
+    if case.get('pool') == 2:
+        POOL = ['/a', '/a/a', '/a/ab', '/a/a/a', '/org', '/org/go', '/org/go/Thing', '/org/example/Root/toolbar',
+                '/org/example/Root', '/a/b', '/a/b/ba/d']
+        OUTSIDE = ['/a/aa', '/org/g', '/o']
     run_history(ctx, [tuple(o) for o in case['ops']], case['every'], case)
